@@ -233,10 +233,14 @@ func litString(r rune, o Opts, inClass bool) string {
 			return `\n`
 		case '\t':
 			return `\t`
+		case '\r':
+			return `\r`
 		}
 		return string(r)
 	}
 	switch r {
+	case '\r':
+		return `\r`
 	case '\n':
 		return `\n`
 	case '\t':
